@@ -44,7 +44,7 @@ pub fn update_config(
     if let Some(new_fees) = new_vault_fees {
         new_fees.is_valid()?;
 
-        if has_factory_token(&[config.clone().lp_asset])
+        if has_factory_token(&[config.asset_info.clone(), config.lp_asset.clone()])
             && new_fees.burn_fee.share > Decimal::zero()
         {
             return Err(VaultError::TokenFactoryAssetBurnDisabled {});
